@@ -70,12 +70,15 @@ static bool was_freed(void *p) { return tab_find(&freed_t, p) != NULL; }
 static void maybe_pad(void) {
     if (alloc_pad_pm && (int)(arnd() % 1000) < alloc_pad_pm) { alloc_pads++; (void)__real_malloc(16 + arnd() % 400); }
 }
+extern bool race_on; void race_forget(const void *p, size_t n);
+extern size_t __sanitizer_get_allocated_size(const volatile void *p);
 void *__wrap_malloc(size_t n) {
     if (!sim_cur_proc()) return __real_malloc(n);
     alloc_count++;
     maybe_pad();
     void *p = __real_malloc(n);
     if (p && alloc_junk_on) memset(p, alloc_junk_on & 0xff, n);
+    if (race_on && p) race_forget(p, n);
     live_add(p, n);
     return p;
 }
@@ -84,6 +87,7 @@ void *__wrap_calloc(size_t a, size_t b) {
     alloc_count++;
     maybe_pad();
     void *p = __real_calloc(a, b);
+    if (race_on && p) race_forget(p, a * b);
     live_add(p, a * b);
     return p;
 }
@@ -93,9 +97,11 @@ void __wrap_free(void *p) {
     Blk *b = live_find(p);
     if (!b) {
         if (was_freed(p)) { alloc_double_free++; return; }   /* reported by the family; do not let ASan abort first */
+        if (race_on) race_forget(p, __sanitizer_get_allocated_size(p));
         __real_free(p);   /* allocated outside the seam (strdup, getline, ...) */
         return;
     }
+    if (race_on) race_forget(p, b->n);
     live_del(b);
     __real_free(p);
 }
@@ -111,6 +117,7 @@ void *__wrap_realloc(void *p, size_t n) {
         if (!q) return NULL;
         if (alloc_junk_on) memset(q, alloc_junk_on & 0xff, n);
         memcpy(q, p, old < n ? old : n);
+        if (race_on) { race_forget(p, old); race_forget(q, n); }
         live_del(b); live_add(q, n);
         __real_free(p);
         return q;
@@ -120,6 +127,7 @@ void *__wrap_realloc(void *p, size_t n) {
     void *q = __real_realloc(p, n);
     if (!q) { live_add(p, old); return NULL; }
     if (q != p) tab_add(&freed_t, p, 0);
+    if (race_on) { if (q != p) race_forget(p, old); if (n > old) race_forget((char *)q + old, n - old); }
     if (alloc_junk_on && n > old) memset((char *)q + old, alloc_junk_on & 0xff, n - old);
     live_add(q, n);
     return q;
